@@ -114,6 +114,8 @@ def rank_argument(c, rspec, frac):
         return tuple(r)
     if rspec == "npint":
         return [np.int64(x) if k % 2 == 0 else np.int32(x) for k, x in enumerate(r)]
+    if rspec == "ndarray":
+        return np.array(r)
     if rspec == "int":
         return r[0] if c["op"] in ("tucker", "tr") else r[1]
     if rspec == "none":
@@ -123,6 +125,12 @@ def rank_argument(c, rspec, frac):
     if rspec == "float":
         return frac / 100.0
     raise ValueError(rspec)
+
+
+def mode_argument(c, mspec):
+    """tensor_ring's `mode` in the spelling `mspec` (SVDDecomp.ModeSpecs)."""
+    m = int(c["mode"])
+    return {"int": m, "np64": np.int64(m), "np32": np.int32(m), "npintp": np.intp(m), "neg": m - len(c["shape"])}[mspec]
 
 
 def uniform_rank(c):
@@ -167,6 +175,7 @@ def execute(case):
     np.random.seed(case["seed"] % (2**32))       # tensor_train / tensor_ring have no random_state argument
     rspec, via = case.get("rspec", "list"), case.get("via", "function")
     ev["rspec"], ev["frac"], ev["via"] = rspec, int(case.get("frac", 0)), via
+    ev["mspec"] = case.get("mspec", "int")
     if via == "refit":
         ev["pre"] = [int(d) for d in case["pre"]]
     try:
@@ -180,7 +189,7 @@ def execute(case):
             elif c["op"] == "ttm":
                 dec = tensor_train_matrix(Xt, rank=rank, svd=case["svd"])
             elif c["op"] == "tr":
-                dec = tensor_ring(Xt, rank=rank, mode=c["mode"], svd=case["svd"])
+                dec = tensor_ring(Xt, rank=rank, mode=mode_argument(c, ev["mspec"]), svd=case["svd"])
             else:
                 raise AssertionError(c["op"])
         else:
@@ -191,7 +200,7 @@ def execute(case):
             elif c["op"] == "ttm":
                 est = TensorTrainMatrix(rank=rank, svd=case["svd"])
             elif c["op"] == "tr":
-                est = TensorRing(rank=rank, mode=c["mode"], svd=case["svd"])
+                est = TensorRing(rank=rank, mode=mode_argument(c, ev["mspec"]), svd=case["svd"])
             else:
                 raise AssertionError(c["op"])
             if via == "refit":       # the same estimator object, first fitted on another tensor (its outcome is not judged)
@@ -339,7 +348,10 @@ def rank_form(rng, c, k):
         rs = "int"
     if c["op"] == "tucker" and list(c["rank"]) == list(c["shape"]) and k % 4 != 3:
         rs = "none"
-    out = {"rspec": rs, "frac": 0, "via": via, "pow2": POW2S[(k // 3) % len(POW2S)]}
+    if k % 13 == 5 and rs in ("list", "tuple", "npint"):
+        rs = "ndarray"                       # not a documented form: may be refused (SVDDecomp.Lenient)
+    out = {"rspec": rs, "frac": 0, "via": via, "pow2": POW2S[(k // 3) % len(POW2S)],
+           "mspec": ("int", "np64", "int", "npintp", "np32", "int", "neg")[k % 7] if c["op"] == "tr" else "int"}
     if via == "refit":
         if rs in ("tuple", "npint"):
             out["rspec"] = "list"            # a mutable list is what an estimator could corrupt between fits
@@ -434,7 +446,7 @@ def run(chk, opts):
                 % (len(algs), sum(len(v) for v in tens.values()), ", all in thorough" if thorough else "", len(cases) - n_exact))
     for e in events:
         if "cfg" in e:
-            chk.distinct.add((str(e["cfg"]), e["svd"], e["iters"], e["dtype"], e["rspec"], e["frac"], e["via"]))
+            chk.distinct.add((str(e["cfg"]), e["svd"], e["iters"], e["dtype"], e["rspec"], e["frac"], e["via"], e["mspec"]))
     for e in events[:1] + events[n_exact - 1:n_exact] + events[-1:]:
         if "cfg" in e:
             chk.sample({k: v for k, v in e.items() if k != "data"})
